@@ -677,7 +677,7 @@ PROPS["C10"] = {
                  "+ bit-exact Float mirror of every translated piece against the public API + search on the real code for the numerical part",
     "level_text": "Partial. WITH THE GENERATED FITTER (Props/C10Fit.offset_generated / offset_lms_sampling_generated, using C08Kernel): the curves offset(curve, d0, d1) returns are a connected chain from the first to the last sample and "
                   "EVERY one of the 33..129 samples - points exactly on the parallel curve C(t) + n(t)*d(t) - is within 0.1 of the chain at a parameter in [0,1], for every curve, feature class and offsets, "
-                  "provided no three consecutive samples coincide; nothing in the fitting stage is abstract any more. " "find_inflection_points_complete / _sound (Props/C10Inflect): in the canonical form the generated find_inflection_points returns EXACTLY the roots in [0,1] of a*t^2 + b*t - 1 (a = -3+x+y, b = 3-x) "
+                  "provided no three consecutive samples coincide; nothing in the fitting stage is abstract any more, and the driver compares EVERY CONTROL POINT of every curve that offset / offset_lms_sampling return with the generated functions over the generated fitter, bit for bit. " "find_inflection_points_complete / _sound (Props/C10Inflect): in the canonical form the generated find_inflection_points returns EXACTLY the roots in [0,1] of a*t^2 + b*t - 1 (a = -3+x+y, b = 3-x) "
                   "whenever |a| > f64::EPSILON (the guard as written; for the real square root) - the parameters at which offset_scaling / offset_lms_sampling cut the curve. " "PROVED for every curve, every feature class and EVERY feature parameter, both signs of d, over any ordered field (sqrt abstract: non-negative square root): "
                   "sections_tile / kept_sections_tile - the (t1,t2) sections that offset_lms_sampling and offset_scaling derive from features_for_curve (incl. the 0.0001/0.9999 snapping and the t1 != t2 filter) "
                   "tile [0,1]: first starts at 0, consecutive ones share their boundary, last ends at 1, 1..4 sections, each with t1 < t2; "
